@@ -20,7 +20,7 @@ MAX_INLINE_DEPTH = 4
 def eval_call(ev: Ev, n: ast.Call) -> Val:
 	txt = ast.unparse(n)
 	c = ev.fn.contract
-	if c is not None and txt in c.rewrites and ev.mode == 'code':
+	if c is not None and txt in c.rewrites and ev.rw:
 		ev.eng.used_rewrites.add(f'{ev.fn.label}: {txt}  ~>  {c.rewrites[txt]}')
 		return ev.eval(ast.parse(c.rewrites[txt], mode='eval').body)
 	f = n.func
